@@ -1,6 +1,6 @@
 import GmQuic.Lemmas.AntiAmpMore
 import GmQuic.Lemmas.AntiAmpConcSender
-import GmQuic.Lemmas.AntiAmpWake
+import GmQuic.Lemmas.AntiAmpFold
 /-!
 # C15 — an unvalidated address never receives more than 3x what it sent
 
@@ -12,20 +12,6 @@ half (`Conc`).
 -/
 namespace GmQuic.Props.C15
 open GmQuic.AntiAmp
-
-instance (ops : List AaOp) : Decidable (NotGranted ops) := by
-  unfold NotGranted; infer_instance
-
-theorem pinv_fold (r : Rule) (ops : List AaOp) (s : PathSt) (hi : PInv s) (hng : NotGranted ops)
-    (hok : ∀ op ∈ ops, OpOk r op) : PInv (ops.foldl (Path.stepR r) s) := by
-  induction ops generalizing s with
-  | nil => exact hi
-  | cons op ops ih =>
-    simp only [List.foldl_cons]
-    apply ih
-    · exact pinv_step r s op hi (hng op (by simp)) (hok op (by simp))
-    · intro o ho; exact hng o (by simp [ho])
-    · intro o ho; exact hok o (by simp [ho])
 
 /-- **three_x** (DESIGN Appendix A shape): before the address is validated the bytes handed to the
     IO sender never exceed three times the bytes received, and the credit never wrapped — for every
@@ -169,50 +155,6 @@ example : (Path.step Path.init .poll).waiting = true ∧
 
 /-! ## all interleavings of the atomic operations -/
 
-def NoGrantC (ops : List COp) : Prop := ∀ op ∈ ops, op ≠ COp.callGrant
-
-instance (ops : List COp) : Decidable (NoGrantC ops) := by unfold NoGrantC; infer_instance
-
-theorem conc_rcvd_mono (s : Conc) (op : COp) : s.rcvdTotal ≤ (s.step op).rcvdTotal := by
-  cases op <;> simp only [Conc.step]
-  · omega
-  · exact Nat.le_refl _
-  · exact Nat.le_refl _
-  · exact Nat.le_refl _
-  · cases hs : s.sender <;> simp only
-    · exact Nat.le_refl _
-    · split <;> exact Nat.le_refl _
-    · split <;> exact Nat.le_refl _
-    · split <;> exact Nat.le_refl _
-    · split <;> exact Nat.le_refl _
-    · exact Nat.le_refl _
-
-theorem conc_fold_mono (ops : List COp) (s : Conc) : s.rcvdTotal ≤ (ops.foldl Conc.step s).rcvdTotal := by
-  induction ops generalizing s with
-  | nil => exact Nat.le_refl _
-  | cons op ops ih => exact Nat.le_trans (conc_rcvd_mono s op) (ih _)
-
-theorem cinv_step (s : Conc) (op : COp) (hi : CInv s) (hg : op ≠ .callGrant)
-    (hb : 3 * (s.step op).rcvdTotal < U) : CInv (s.step op) := by
-  cases op with
-  | callGrant => exact absurd rfl hg
-  | callRcvd n => exact cinv_call s _ hi (Or.inl ⟨n, rfl⟩)
-  | callAbort => exact cinv_call s _ hi (Or.inr rfl)
-  | stepPool i => exact cinv_pool s i hi (by simpa [Conc.step] using hb)
-  | senderStep amt => exact cinv_sender s amt hi
-
-theorem cinv_fold (ops : List COp) (s : Conc) (hi : CInv s) (hng : NoGrantC ops)
-    (hb : 3 * (ops.foldl Conc.step s).rcvdTotal < U) : CInv (ops.foldl Conc.step s) := by
-  induction ops generalizing s with
-  | nil => exact hi
-  | cons op ops ih =>
-    simp only [List.foldl_cons] at hb ⊢
-    have hm := conc_fold_mono ops (s.step op)
-    exact ih _ (cinv_step s op hi (hng op (by simp)) (by omega)) (fun o ho => hng o (by simp [ho])) hb
-
-theorem cinv_init : CInv ({} : Conc) :=
-  ⟨rfl, by decide, by simp, by simp [Sender.ok], by decide, by decide, by decide⟩
-
 /-- **three_x / no_underflow over all interleavings**: any number of concurrent `on_rcvd` / `abort`
     invocations and the single sending task (which sends at most the `balance()` it read), each
     advancing one atomic operation at a time in any order: before a grant the bytes committed to the
@@ -233,11 +175,6 @@ example :
     NoGrantC ops ∧ (ops.foldl Conc.step {}).sentTotal = 700 ∧ (ops.foldl Conc.step {}).aa.credit = 500 := by
   decide
 
-
-theorem winv_fold (ops : List COp) (s : Conc) (hi : WInv s) : WInv (ops.foldl Conc.step s) := by
-  induction ops generalizing s with
-  | nil => exact hi
-  | cons op ops ih => exact ih _ (winv_step s op hi)
 
 /-- **resumes_on_rcvd_or_grant over all interleavings** (no lost wake-up, grants included): whenever
     the sending task sleeps on `Err(CREDIT)` and no CREDIT signal is pending, either the path is still
